@@ -6,7 +6,8 @@ from harness import core
 
 ID = 'C15'
 MODULE = 'Gpv.Props.C15'
-THEOREMS = core.theorems('C15')
+MODULES = ['Gpv.Props.C15', 'Gpv.Props.C15Reentrant']
+THEOREMS = core.theorems('C15', 'C15Reentrant')
 RULE = ('the module attribute `random` of accumulators is replaced from outside by a scripted source that serves prescribed draws '
         'through whatever API is called and records the requested ranges; (a) random scripts for n up to 40, k up to 8: reservoir, n and '
         'requested ranges compared with the Lean model fed the same script; (b) EVERY script for n <= 7, k <= 3 (quick: n <= 6) run on '
@@ -21,13 +22,15 @@ class Scripted:
     def __init__(self, script):
         self.script = list(script)
         self.ranges = []
+        self.returned = []
 
     def _draw(self, a, b):
         self.ranges.append((a, b))
         if b < a:
             raise ValueError('empty range for randrange() (%d, %d)' % (a, b + 1))
         u = self.script.pop(0) if self.script else 0
-        return a + (u % (b - a + 1))
+        self.returned.append(a + (u % (b - a + 1)))
+        return self.returned[-1]
 
     def randint(self, a, b):
         return self._draw(a, b)
@@ -187,6 +190,9 @@ class _Echo:
             self.rs.accumulate(('echo', self.i))
 
 
+ECHO_DETAIL = [None]
+
+
 def run_impl_echo(k, n, script):
     import gc
     import generatorpipeline.accumulators as A
@@ -202,6 +208,7 @@ def run_impl_echo(k, n, script):
             calls.append(('obs', i))
             rs.accumulate(_Echo(i, rs, calls))
         _Echo.live = False
+        ECHO_DETAIL[0] = dict(ids=[(v.i if isinstance(v, _Echo) else 1000 + v[1]) for v in rs.value], returned=list(src.returned), calls=list(calls))
         return len(calls), rs.n, len(rs.value), list(src.ranges)
     except Exception as e:  # noqa
         _Echo.live = False
@@ -216,20 +223,39 @@ def echo_cases(ctx):
     """every accumulate() call is an observation — also one made from the finaliser of an element the reservoir is just evicting: n counts it and
     its random choice is over 1..(its own number)"""
     rng = ctx.rng
+    ties = []
     for _ in range(ctx.scale(20, 200)):
         k = rng.choice([1, 1, 2, 3])
         n = rng.choice([3, 5, 9, 20])
         script = [rng.randrange(0, 3 * k) for _ in range(4 * n)]     # small draws: evictions (and so re-entrant observations) are frequent
         case = dict(echo_observations=True, k=k, n=n, draws=script)
+        ECHO_DETAIL[0] = None
         calls, cnt, held, ranges = run_impl_echo(k, n, script)
         ctx.case(('echo', k, n, tuple(script)), True, sample=case if n <= 5 else None)
         ctx.count('echo_runs')
+        if ECHO_DETAIL[0] is not None and cnt != -1:
+            det = ECHO_DETAIL[0]
+            ties.append(('res.echo first %d | %s | %s' % (k, ' '.join(map(str, det['returned'])), ' '.join('e' * n)),
+                         (cnt, det['ids'], [tuple(r) for r in ranges]), case))
         want_ranges = [(1, t) for t in range(k + 1, calls + 1)]
         if cnt == -1:
             ctx.fail('reservoir-raises', 'with observations that report their own disposal to the reservoir: %s' % held, case)
         elif cnt != calls or held != min(calls, k) or [tuple(r) for r in ranges] != want_ranges:
             ctx.fail('reservoir-reentrant-observation', '%d accumulate() calls (some made while an element was being evicted): n=%s, %s held, random requests %s; '
                      'every call is one observation: n=%d and requests %s' % (calls, cnt, held, ranges[:8], calls, want_ranges[:8]), case)
+    # the statement-level model (Model/Reentrant.lean, increment first): same count, same retained observations, same requests
+    if ties:
+        mout = core.run_driver([t[0] for t in ties])
+        for (line, (cnt, ids, ranges), case), ml in zip(ties, mout):
+            ctx.count('reentrant_model_ties')
+            try:
+                mn, mids, mr = [part.split() for part in ml.split('|')]
+                model = (int(mn[0]), [int(t) for t in mids], [tuple(int(x) for x in t.split(':')) for t in mr])
+            except Exception:  # noqa
+                model = ml[:200]
+            if model != (cnt, ids, ranges):
+                ctx.disagree('reentrant-model-correspondence', case, dict(n=cnt, reservoir=ids, requests=ranges[:10]), model if isinstance(model, str) else
+                             dict(n=model[0], reservoir=model[1], requests=model[2][:10]), line[:200])
 
 
 def check(ctx):
